@@ -20,7 +20,8 @@ ASSUMPTIONS = ["well-formed regime; kernels of one stream do not overlap (G-sim)
 FLOAT_KEYS = ["files"]          # fractional-time-unit workload class (hv/shard.py)
 PLAN = {"quick": {"shards": 16, "cases": 800, "timeout": 600}, "thorough": {"shards": 16, "cases": 8000, "timeout": 3000}}
 FLOORS = {"quick": {"distinct_nontrivial": 100, "streams_judged": 700, "gaps_host_wait": 500, "gaps_kernel_wait": 300, "gaps_other": 300,
-                    "gap_equals_threshold": 30, "launch_start_equals_prev_end": 20, "unlinked_kernels": 50, "stats_rows_judged": 500},
+                    "gap_equals_threshold": 30, "launch_start_equals_prev_end": 20, "unlinked_kernels": 50, "stats_rows_judged": 500,
+                    "second_or_later_request_on_same_object": 200},
           "thorough": {"distinct_nontrivial": 2000, "streams_judged": 14000, "gaps_host_wait": 10000, "gaps_kernel_wait": 6000, "gaps_other": 6000,
                        "gap_equals_threshold": 600, "launch_start_equals_prev_end": 400, "unlinked_kernels": 1000, "stats_rows_judged": 8000}}
 CATS = {"kernel", "Kernel", "gpu_memset", "Memset", "gpu_memcpy", "Memcpy", "mtia_ccp_events"}
@@ -75,7 +76,9 @@ def gen_case(rnd, tier: str, i: Any) -> Dict[str, Any]:
         files[f"rank{r}.json"] = tr
     # thresholds are completed in run_case from the actual gaps (they depend on the loaded view)
     return {"files": files, "cfg": {"rank_sel": rnd.random(), "stream_sel": rnd.random(), "thr_sel": rnd.random(), "thr_mode": rnd.choice(["gap", "gap", "gap+1", "0", "1", "30", "1e9"]),
-                                    "stats": rnd.random() < 0.5}}
+                                    "stats": rnd.random() < 0.5},
+            "more_cfgs": [{"rank_sel": rnd.random(), "stream_sel": rnd.random(), "thr_sel": rnd.random(), "thr_mode": rnd.choice(["gap", "gap+1", "0", "30", "1e9"]),
+                           "stats": rnd.random() < 0.5} for _ in range(rnd.choice([0, 0, 1, 2]))]}
 
 
 def run_case(case: Dict[str, Any], ctx: Any) -> core.CaseResult:
@@ -94,6 +97,24 @@ def run_case(case: Dict[str, Any], ctx: Any) -> core.CaseResult:
     if not ranks_ok:
         res.discarded, res.discard_reason = True, "no kernel left on any rank"
         return res
+    d = ctx.scratch.new("c06")
+    try:
+        core.write_trace_files(d, case["files"])
+        ok, ta = drv.guard(res, "TraceAnalysis(load)", drv.new_analysis, d)
+        if not ok:
+            return res
+        # one or several requests on the same object (other ranks / streams / threshold / statistics flag)
+        for k, cfg_k in enumerate([cfg] + list(case.get("more_cfgs", []))):
+            if k >= 1:
+                res.counters["second_or_later_request_on_same_object"] += 1
+            if not _one_request(case, cfg_k, ta, ld, models, ranks_ok, res):
+                break
+    finally:
+        ctx.scratch.drop(d)
+    return res
+
+
+def _one_request(case, cfg, ta, ld, models, ranks_ok, res) -> bool:  # noqa: ANN001
     n = max(1, int(cfg["rank_sel"] * len(ranks_ok) + 0.999))
     ranks = ranks_ok[:n] if cfg["rank_sel"] < 0.7 else [ranks_ok[int(cfg["rank_sel"] * 1000) % len(ranks_ok)]]
     # threshold from the actual gaps of the first selected rank
@@ -109,86 +130,78 @@ def run_case(case: Dict[str, Any], ctx: Any) -> core.CaseResult:
     if cfg["stream_sel"] < 0.4 and common:
         k = max(1, int(cfg["stream_sel"] * 2.5 * len(common)))
         streams = common[:k]
-    d = ctx.scratch.new("c06")
-    try:
-        core.write_trace_files(d, case["files"])
-        ok, ta = drv.guard(res, "TraceAnalysis(load)", drv.new_analysis, d)
-        if not ok:
-            return res
-        ok, out = drv.guard(res, "get_idle_time_breakdown", ta.get_idle_time_breakdown, ranks=ranks, streams=streams, visualize=False,
-                            consecutive_kernel_delay=thr, **({"show_idle_interval_stats": True} if cfg.get("stats") else {}))
-        if not ok:
-            res.violations[-1].witness.update(ranks=ranks, streams=streams, thr=thr)
-            return res
-        df = out[0]
-        stats = out[1] if cfg.get("stats") else None
-        if cfg.get("stats") and stats is None:
-            res.bad("interval-stats", "show_idle_interval_stats=True returned no statistics frame")
-        nontrivial = False
-        for r in ranks:
-            kept = ld.kept[r]
-            byid = {e.id: e for e in kept}
-            link = raw.link_oracle(models[r])
-            st = _streams(kept)
-            for s in (streams if streams is not None else sorted(st)):
-                ks = st.get(s, [])
-                res.counters["streams_judged"] += 1
-                exp = collections.Counter()
-                cats = collections.Counter()
-                gaps_by = collections.defaultdict(list)
-                for a, b in zip(ks, ks[1:]):
-                    gap = b.ts - a.end
-                    l = link.get(b.id, -1)
-                    L = byid.get(l) if l > 0 else None
-                    if l == 0:
-                        res.counters["unlinked_kernels"] += 1
-                    if L is not None and L.ts == a.end:
-                        res.counters["launch_start_equals_prev_end"] += 1
-                    if gap == thr:
-                        res.counters["gap_equals_threshold"] += 1
-                    if L is not None and L.ts > a.end:
-                        c = "host_wait"
-                    elif gap < thr:
-                        c = "kernel_wait"
-                    else:
-                        c = "other"
-                    exp[c] += gap
-                    cats[c] += 1
-                    gaps_by[c].append(gap)
-                    res.counters[f"gaps_{c}"] += 1
-                sub = df[(df["rank"] == r) & (df["stream"] == s)]
-                got = {c: float(v) for c, v in zip(sub["idle_category"].tolist(), sub["idle_time"].tolist())}
-                if len(got) != len(sub):
-                    res.bad("category-row-unique", f"rank {r} stream {s}: duplicate category rows")
-                # the result frame is rounded to two decimals (result_df.round(2)): exact for whole microseconds, half a unit of
-                # the second decimal for sub-microsecond traces
-                tol = 0.005 + 1e-9 if core.FLOAT_MODE else 0.0
-                bad = {c: (got.get(c, 0.0), float(exp.get(c, 0))) for c in set(got) | set(exp) if abs(got.get(c, 0.0) - float(exp.get(c, 0))) > tol}
-                if bad:
-                    res.bad("idle-by-category", f"rank {r} stream {s} threshold {thr}: (reported, expected) {bad}; kernels "
-                            f"{[(k.id, k.ts - ld.min_ts, k.end - ld.min_ts, (byid[link[k.id]].ts - ld.min_ts) if link.get(k.id, -1) > 0 and link[k.id] in byid else None) for k in ks][:10]} "
-                            f"[(id, start, end, launch start)]", rank=r, stream=s, thr=thr, bad=str(bad),
-                            unlinked=[k.id for k in ks if link.get(k.id, -1) == 0])
-                if stats is not None and not bad:
-                    _check_stats(res, stats, r, s, gaps_by)
-                total = sum(exp.values())
-                if ks:
-                    span_busy = (ks[-1].end - ks[0].ts) - sum(k.dur for k in ks)
-                    if abs(sum(got.values()) - span_busy) > 1e-9 + tol * max(1, len(got)) and not bad:
-                        res.bad("idle-total", f"rank {r} stream {s}: categories add up to {sum(got.values())}, span - busy = {span_busy}")
-                if total > 0:
-                    ratios = [float(x) for x in sub["idle_time_ratio"].tolist()]
-                    if abs(sum(ratios) - 1.0) > 0.005 * max(1, len(ratios)) + 1e-9:
-                        res.bad("ratios-sum", f"rank {r} stream {s}: idle_time_ratio values {ratios} do not add up to 1")
-                    for c, ratio in zip(sub["idle_category"].tolist(), ratios):
-                        if abs(ratio - exp.get(c, 0) / total) > 0.005 + 1e-9 and not bad:      # two decimals, either rounding of .xx5
-                            res.bad("ratio", f"rank {r} stream {s} {c}: ratio {ratio} is not {exp.get(c, 0)}/{total} to two decimals")
-                if len(ks) >= 3 and sum(1 for c in exp if exp[c] > 0) >= 2:
-                    nontrivial = True
-        res.nontrivial = nontrivial
-        res.trivial_reason = "no stream with >= 3 kernels and >= 2 categories"
-        res.key = core.digest([case["files"], ranks, streams, thr])
-        res.sample = {"ranks": ranks, "streams": streams, "threshold": thr, "rows": df.head(6).to_dict("records")}
-    finally:
-        ctx.scratch.drop(d)
-    return res
+    ok, out = drv.guard(res, "get_idle_time_breakdown", ta.get_idle_time_breakdown, ranks=ranks, streams=streams, visualize=False,
+                        consecutive_kernel_delay=thr, **({"show_idle_interval_stats": True} if cfg.get("stats") else {}))
+    if not ok:
+        res.violations[-1].witness.update(ranks=ranks, streams=streams, thr=thr)
+        return False
+    df = out[0]
+    stats = out[1] if cfg.get("stats") else None
+    if cfg.get("stats") and stats is None:
+        res.bad("interval-stats", "show_idle_interval_stats=True returned no statistics frame")
+    nontrivial = False
+    for r in ranks:
+        kept = ld.kept[r]
+        byid = {e.id: e for e in kept}
+        link = raw.link_oracle(models[r])
+        st = _streams(kept)
+        for s in (streams if streams is not None else sorted(st)):
+            ks = st.get(s, [])
+            res.counters["streams_judged"] += 1
+            exp = collections.Counter()
+            cats = collections.Counter()
+            gaps_by = collections.defaultdict(list)
+            for a, b in zip(ks, ks[1:]):
+                gap = b.ts - a.end
+                l = link.get(b.id, -1)
+                L = byid.get(l) if l > 0 else None
+                if l == 0:
+                    res.counters["unlinked_kernels"] += 1
+                if L is not None and L.ts == a.end:
+                    res.counters["launch_start_equals_prev_end"] += 1
+                if gap == thr:
+                    res.counters["gap_equals_threshold"] += 1
+                if L is not None and L.ts > a.end:
+                    c = "host_wait"
+                elif gap < thr:
+                    c = "kernel_wait"
+                else:
+                    c = "other"
+                exp[c] += gap
+                cats[c] += 1
+                gaps_by[c].append(gap)
+                res.counters[f"gaps_{c}"] += 1
+            sub = df[(df["rank"] == r) & (df["stream"] == s)]
+            got = {c: float(v) for c, v in zip(sub["idle_category"].tolist(), sub["idle_time"].tolist())}
+            if len(got) != len(sub):
+                res.bad("category-row-unique", f"rank {r} stream {s}: duplicate category rows")
+            # the result frame is rounded to two decimals (result_df.round(2)): exact for whole microseconds, half a unit of
+            # the second decimal for sub-microsecond traces
+            tol = 0.005 + 1e-9 if core.FLOAT_MODE else 0.0
+            bad = {c: (got.get(c, 0.0), float(exp.get(c, 0))) for c in set(got) | set(exp) if abs(got.get(c, 0.0) - float(exp.get(c, 0))) > tol}
+            if bad:
+                res.bad("idle-by-category", f"rank {r} stream {s} threshold {thr}: (reported, expected) {bad}; kernels "
+                        f"{[(k.id, k.ts - ld.min_ts, k.end - ld.min_ts, (byid[link[k.id]].ts - ld.min_ts) if link.get(k.id, -1) > 0 and link[k.id] in byid else None) for k in ks][:10]} "
+                        f"[(id, start, end, launch start)]", rank=r, stream=s, thr=thr, bad=str(bad),
+                        unlinked=[k.id for k in ks if link.get(k.id, -1) == 0])
+            if stats is not None and not bad:
+                _check_stats(res, stats, r, s, gaps_by)
+            total = sum(exp.values())
+            if ks:
+                span_busy = (ks[-1].end - ks[0].ts) - sum(k.dur for k in ks)
+                if abs(sum(got.values()) - span_busy) > 1e-9 + tol * max(1, len(got)) and not bad:
+                    res.bad("idle-total", f"rank {r} stream {s}: categories add up to {sum(got.values())}, span - busy = {span_busy}")
+            if total > 0:
+                ratios = [float(x) for x in sub["idle_time_ratio"].tolist()]
+                if abs(sum(ratios) - 1.0) > 0.005 * max(1, len(ratios)) + 1e-9:
+                    res.bad("ratios-sum", f"rank {r} stream {s}: idle_time_ratio values {ratios} do not add up to 1")
+                for c, ratio in zip(sub["idle_category"].tolist(), ratios):
+                    if abs(ratio - exp.get(c, 0) / total) > 0.005 + 1e-9 and not bad:      # two decimals, either rounding of .xx5
+                        res.bad("ratio", f"rank {r} stream {s} {c}: ratio {ratio} is not {exp.get(c, 0)}/{total} to two decimals")
+            if len(ks) >= 3 and sum(1 for c in exp if exp[c] > 0) >= 2:
+                nontrivial = True
+    res.nontrivial = res.nontrivial or nontrivial
+    res.trivial_reason = "no stream with >= 3 kernels and >= 2 categories"
+    res.key = core.digest([case["files"], res.key, ranks, streams, thr])
+    res.sample = {"ranks": ranks, "streams": streams, "threshold": thr, "rows": df.head(6).to_dict("records")}
+    return True
